@@ -98,6 +98,7 @@ theorem equal_den {m : IM σ α} (l0 : List α) (s0 : σ) (r : List σ) (ls : Li
     (h0 : DenL m s0 l0) (h : All2 (DenL m) r ls) :
     ∃ F, ∀ fuel, F ≤ fuel → ∀ rounds, l0.length + 1 ≤ rounds →
       (equal m fuel rounds (s0 :: r)).1 = some (decide (∀ l ∈ ls, l = l0)) := by
+  have _tie := Skeleton.Tie.itEqual
   induction l0 generalizing s0 r ls with
   | nil =>
     obtain ⟨F1, s', hd, _⟩ := drive_denL h0
